@@ -53,7 +53,7 @@ ASSUMPTIONS = [
 REQUIRED = {"mpfa": 0.2, "mpsa": 0.15, "biot": 0.15, "mode-split": 0.2, "mode-partial": 0.15, "mode-update": 0.08,
             "mode-inverter": 0.05, "dim2": 0.2, "dim3": 0.2, "split-shared-face": 0.1, "partial-proper": 0.1,
             "by-memory": 0.05, "python-inverter": 0.1,
-            "active-cells-reindexed": 0.05, "biot-het-alpha-reindexed": 0.02}
+            "active-cells-reindexed": 0.05, "face-in-3-subproblems": 0.02, "biot-het-alpha-reindexed": 0.02}
 
 RTOL = 1e-10
 
@@ -97,15 +97,23 @@ def _is_tilted(grid):
 
 @st.composite
 def _spec(draw, tier):
-    disc = draw(st.sampled_from(["mpfa", "mpfa", "mpsa", "biot"]))
+    disc = draw(st.sampled_from(["mpfa", "mpfa", "mpfa", "mpsa", "mpsa", "biot", "biot", "biot"]))
     big = tier == "thorough"
     modes = ["split", "split", "split", "partial", "partial", "update", "inverter"]
     if disc == "biot":
         # restricted discretisations are where the cell-wise Biot coefficients are re-indexed: keep them frequent
         modes = ["split", "split", "partial", "partial", "partial", "update", "update", "inverter"]
     mode = draw(st.sampled_from(modes))
+    # a quarter of the split cases use a small tetrahedral lattice with 4-6 subproblems: its coordinate-based
+    # partition has irregular boundaries, the only way a face ends up in three or more subproblems (probe: ~60 %
+    # of such cases; practically never for triangles or structured partitions)
+    simplex_split = mode == "split" and draw(st.integers(0, 3)) == 0
     if disc == "mpfa":
-        grid = draw(grid_spec(dims=(2, 2, 3), poly=False, max_amp=0.15, max_n=5 if big else 4, max_n3=3 if big else 2))
+        restricted = mode in ("partial", "update")  # larger lattices: active cells a proper subset of the grid
+        grid = draw(grid_spec(dims=(2, 2, 3), poly=False, max_amp=0.15, max_n=(7 if big else 6) if restricted else (5 if big else 4),
+                              max_n3=3 if (big or restricted) else 2))
+        if simplex_split:
+            grid = draw(grid_spec(dims=(3,), kinds=("tet",), poly=False, max_amp=0.15, max_n=4, max_n3=2))
         if grid["kind"] == "tet":
             grid = _cap_cells(grid, 8 if big else 4)
         par = {"K": draw(fv.spd_spec(het=True))}
@@ -116,6 +124,8 @@ def _spec(draw, tier):
             grid = draw(mech_grid_spec(max_n=6 if big else 5, max_n3=2, dims=(2, 2, 2, 3)))
         else:
             grid = draw(mech_grid_spec(max_n=4 if big else 3, max_n3=2, dims=(2, 2, 3)))
+        if simplex_split:
+            grid = draw(mech_grid_spec(max_n=4, max_n3=2, dims=(3,)).filter(lambda q: q["kind"] == "tet"))
         if grid["kind"] == "tet":
             grid = _cap_cells(grid, 4 if big else 2)
         par = {"lame": draw(fv.lame_het_spec())}
@@ -138,10 +148,15 @@ def _spec(draw, tier):
         var["inverter"] = draw(st.sampled_from(["numba", "numba", "python"]))
     if mode == "split":
         var["k"] = draw(st.integers(2, max(2, kmax))) if ncell >= 2 else 1
+        if simplex_split and ncell >= 4:
+            var["k"] = min(ncell, 4 if heavy else draw(st.integers(4, 6)))
         var["by_mem"] = draw(st.sampled_from([False, False, True]))
     if mode in ("partial", "update"):
-        kind = draw(st.sampled_from(["cells", "faces", "nodes"]))
-        var["partial"] = {"kind": kind, "sel": draw(st.lists(st.integers(0, 10**4), min_size=1, max_size=4))}
+        kind = draw(st.sampled_from(["cells", "faces", "nodes", "nodes"]))
+        # indices are taken modulo the entity count; small values sit at a corner of the lattice, where the
+        # update stencil is a proper, non-leading subset of the cells
+        var["partial"] = {"kind": kind, "sel": draw(st.lists(st.one_of(st.integers(0, 3), st.integers(0, 10**4)),
+                                                             min_size=1, max_size=3))}
         if ncell >= 4:
             var["k"] = draw(st.sampled_from([1, 1, 2]))
     if disc == "mpfa" and _is_tilted(grid) and mode != "inverter":
@@ -281,7 +296,7 @@ def _count_shared_faces(discr, g, k, by_mem, peak):
     cnt = np.zeros(g.num_faces, dtype=int)
     for p in parts:
         cnt[p[1]] += 1
-    return len(parts), int((cnt > 1).sum())
+    return len(parts), int((cnt > 1).sum()), int((cnt > 2).sum())
 
 
 def _subset_labels(disc, g, active_cells):
@@ -327,7 +342,9 @@ def check(spec):
         else:
             extra["partition_arguments"] = {"num_subproblems": k}
         if var["mode"] == "split":
-            nparts, nshared = _count_shared_faces(discr, g, k, var["by_mem"], peak)
+            nparts, nshared, nshared3 = _count_shared_faces(discr, g, k, var["by_mem"], peak)
+            if nshared3 >= 1:
+                labels.append("face-in-3-subproblems")
             labels.append(f"parts-{min(nparts, 8)}")
             if nparts >= 2 and nshared >= 1:
                 labels.append("split-shared-face")
